@@ -287,8 +287,9 @@ theorem strict_assigned_fails {e : BEnv} {Γ : Ctx} {cfg : ParserConfig} {m : Xm
 /-- **child_in_primitive_rejected**: a child element under a `PrimitiveNode` raises
 `XmlContextError`, whatever the three flags say. -/
 theorem child_in_primitive_rejected (e : BEnv) (Γ : Ctx) (cfg : ParserConfig) (pm : XmlMeta) (var : XmlVar)
-    (ns : NsMap) (q : QN) (a : List (QN × Str)) (n : NsMap) (t tl : Option Str) (u : Tree) (us : List Tree) :
-    parseNode e Γ cfg (.primitive pm var ns) (.node q a n t (u :: us) tl)
+    (ns : NsMap) (nil : Bool) (q : QN) (a : List (QN × Str)) (n : NsMap) (t tl : Option Str) (u : Tree)
+    (us : List Tree) :
+    parseNode e Γ cfg (.primitive pm var ns nil) (.node q a n t (u :: us) tl)
       = .error (.context "Primitive node doesn't support child nodes!") := by
   simp [parseNode]
 
@@ -320,13 +321,20 @@ theorem unknown_attr_policy {m : XmlMeta} {q : QN} (hq : unknownAttr m q = true)
   · next h =>
     apply foldlM_insert_fail
     intro b
-    simp only [hq.1, hq.2, h]
+    -- a reported name lies outside the xsi namespace: it is not one of the control attributes
+    have hctl : (decide (q = xsiType) || decide (q = xsiNil)) = false := by
+      simp only [Bool.and_eq_true, decide_eq_true_eq] at h
+      simp only [Bool.or_eq_false_iff, decide_eq_false_iff_not]
+      constructor
+      · intro hx; apply h.2; rw [hx]; decide
+      · intro hx; apply h.2; rw [hx]; decide
+    simp only [hq.1, hq.2, h, hctl]
     rfl
   · next h =>
     apply foldlM_insert_noop
     intro b
     simp only [hq.1, hq.2, h]
-    rfl
+    cases (decide (q = xsiType) || decide (q = xsiNil)) <;> rfl
 
 /- non-vacuity: `k` is unknown for `L` (which declares `i`); an xsi attribute is unknown too -/
 example : unknownAttr metaLeaf ['k'] = true ∧ unknownAttr metaLeaf ['i'] = false := by decide
@@ -466,8 +474,8 @@ theorem convert_success_silent {e : BEnv} {var : VarCore} {s : Str} {nsmap : NsM
 strict → `ParserError`. -/
 theorem convert_failure_primitive {e : BEnv} {var : XmlVar} {s : Str} {ns : NsMap}
     (h : convFails e var.toVarCore s ns none = true) (Γ : Ctx) (cfg : ParserConfig) (pm : XmlMeta)
-    (q : QN) (a : List (QN × Str)) (n : NsMap) (tl : Option Str) :
-    parseNode e Γ cfg (.primitive pm var ns) (.node q a n (some s) [] tl) =
+    (q : QN) (a : List (QN × Str)) (n : NsMap) (tl : Option Str) (nil : Bool) :
+    parseNode e Γ cfg (.primitive pm var ns nil) (.node q a n (some s) [] tl) =
       if cfg.failOnConverterWarnings then .error (.parser "Failed to convert value")
       else .ok ⟨[(some q, .prim (.str s))] ++
                 (match (if pm.mixedContent then normalizeContent e.py tl else none) with
